@@ -248,8 +248,14 @@ def c02(tier="quick"):
     # report success over a table that holds a chunk twice
     f10 = [create("f0", "/a", L_FIXED, PX5, chunks=[3, 2, 2], form="iter", fault={"kind": "F10", "flush": k})
            for k in (0, 1, 2)]
+    # a collection re-created at the same path (root and nested) with a value column of the other
+    # type class (integer counts, then fractional float counts, then integers again): the recorded
+    # total must follow - in value and in kind
+    fpx = [(i, j, 0.5 + (i + 2 * j) % 4) for (i, j, _c) in PX5]
+    retype = [[create("f0", p_, L_FIXED, PX5), create("f0", p_, L_FIXED, fpx, dtypes={"count": "float64"}),
+               create("f0", p_, L_FIXED, PX5[:4])] for p_ in ("/", "/n/a")]
     big = [[{"op": "bigcreate", "file": "f0", "path": "/", "nbins": [1000, 500], "splits": [0.3, 0.3, 0.9]}],
-           _wide_shuffled(), f10]
+           _wide_shuffled(), f10] + retype
     if tier == "thorough":
         big.append([{"op": "bigcreate", "file": "f0", "path": "/b", "nbins": [700, 900, 450], "splits": [0.5]}])
     return big
